@@ -117,6 +117,21 @@ def run_case(c):
     if k == "getitem":
         r = observe(lambda: get_gc(c["v"], c["id"])[c["codon"]])
         return r if isinstance(r, Exc) else ord(r)
+    if k == "codeinfo":
+        # derived tables of a code object: registry look-ups, start / stop / sense codon sets, aa -> codons
+        def f():
+            v, cid = c["v"], c["id"]
+            gc = get_gc(v, cid)
+            words = ["".join(p) for p in itertools.product("TCAG", repeat=3)]
+            out = [int(get_gc(v, gc.name).ID), int(get_gc(v, str(cid)).ID), str(gc.name)]
+            out.append(sorted(gc.start_codons))
+            out.append(sorted(gc["*"]))
+            out.append(sorted(gc.sense_codons))
+            out.append([[aa, sorted(gc[aa])] for aa in "ACDEFGHIKLMNPQRSTVWY*"])
+            out.append([bool(gc.is_stop(w)) for w in words])
+            out.append([bool(gc.is_start(w)) for w in words] if v == "old" else sorted(gc.stop_codons))
+            return out
+        return observe(f)
     if k == "codontable":
         canon = "TCAG"
         words = ["".join(p) for p in itertools.product(canon, repeat=3)]
